@@ -243,3 +243,35 @@ Theorem cond_missing_domain_rejected : forall (V : Type) (ls : list (cline V)) d
   In d doms -> first_entry d ls = None -> load_cond true ls doms = None.
 Proof. exact load_cond_missing. Qed.
 Print Assumptions cond_missing_domain_rejected.
+
+(* --- the index hypotheses of other properties, discharged for every finalized geometry with well-formed mesh files
+   (coq/Geom/IndexBridge*.v).  wf_indexed is the hypothesis of C10's head-matrix theorems (Properties_C10.v),
+   well_indexed that of C05's loop theorems (Properties_C05.v). *)
+From OM Require Geom.Assembly Geom.AssemblyProofs Geom.ParLoopsGeom.
+From OM Require Import Geom.IndexBridge Geom.IndexBridgeC10 Geom.IndexBridgeC05.
+
+Theorem finalize_gives_wf_indexed : forall g hasc zero snz fi sig sinv ind,
+  finalize g hasc zero snz false = (StOk, Some fi) -> meshes_well_formed g ->
+  (forall k, (k < length (g_meshes g))%nat ->
+     f_out (nth k (mk_flags (fi_marks fi)) flags0) = true -> f_iso (nth k (mk_flags (fi_marks fi)) flags0) = false) ->
+  AssemblyProofs.wf_indexed (to_igeom g fi sig sinv ind) (VV g fi).
+Proof. intros. eapply finalize_wf_indexed; eauto. Qed.
+Print Assumptions finalize_gives_wf_indexed.
+
+Theorem finalize_gives_well_indexed : forall g hasc zero snz fi,
+  finalize g hasc zero snz false = (StOk, Some fi) -> meshes_well_formed g ->
+  ParLoopsGeom.well_indexed (isV g fi) (assembly_meshes g fi).
+Proof. intros. eapply finalize_well_indexed; eauto. Qed.
+Print Assumptions finalize_gives_well_indexed.
+
+(* the extra hypothesis of finalize_gives_wf_indexed is not vacuous: two non-conductive outer layers leave an isolated
+   mesh flagged outermost (nested shells 0,1,2; domains D0 = in 0; D1 = in 1 out 0; D2 = in 2 out 1; Air = out 2;
+   D1, D2, Air non-conductive) *)
+Example isolated_mesh_flagged_outermost :
+  let om := fun m : nat => [(-1, m)] in
+  let g := mkGeom 0 [mkLMesh [] []; mkLMesh [] []; mkLMesh [] []]
+     [ [mkGB true 0 (om 0%nat)]; [mkGB true 1 (om 1%nat); mkGB false 0 (om 0%nat)];
+       [mkGB true 2 (om 2%nat); mkGB false 1 (om 1%nat)]; [mkGB false 2 (om 2%nat)] ] in
+  exists fi, finalize g true [false; true; true; true] (fun _ _ => true) false = (StOk, Some fi)
+    /\ f_out (nth 2 (mk_flags (fi_marks fi)) flags0) = true /\ f_iso (nth 2 (mk_flags (fi_marks fi)) flags0) = true.
+Proof. cbv zeta. eexists. split; [vm_compute; reflexivity|]. split; reflexivity. Qed.
